@@ -239,9 +239,10 @@ loadBinaryEdgeList(
 
     VertexIndex vertex1, vertex2;
     EdgeLabel label;
-    while (readBinaryValue(fileStream, vertex1)) {
-        readBinaryValue(fileStream, vertex2);
-        fromBinary(fileStream, label);
+    // a record counts only if all of its fields could be read
+    while (readBinaryValue(fileStream, vertex1) &&
+           readBinaryValue(fileStream, vertex2) &&
+           fromBinary(fileStream, label)) {
 
         if (vertex1 >= returnedGraph.getSize())
             returnedGraph.resize(vertex1 + 1);
@@ -264,8 +265,9 @@ loadBinaryEdgeList(const std::string &fileName) {
 
     VertexIndex vertex1, vertex2;
     NoLabel label;
-    while (readBinaryValue(fileStream, vertex1)) {
-        readBinaryValue(fileStream, vertex2);
+    // a record counts only if both of its fields could be read
+    while (readBinaryValue(fileStream, vertex1) &&
+           readBinaryValue(fileStream, vertex2)) {
 
         if (vertex1 >= returnedGraph.getSize())
             returnedGraph.resize(vertex1 + 1);
